@@ -229,6 +229,7 @@ struct sproc {
 	int	nsigs;
 	struct { int sig; int64_t t; } sigs[32];
 	int	stranger;
+	int	manual_stop;
 };
 static struct sproc P[NPROC];
 static int nproc;
@@ -679,8 +680,9 @@ int simk_pthread_create(pthread_t *pt, const pthread_attr_t *a, void *(*f)(void 
 static int thr_by_pt(pthread_t pt)
 {
 	int i;
-	for (i = 1; i < nthr; i++)
-		if (pthread_equal(T[i].pt, pt))
+	/* pthread_t values are recycled once a thread has been joined: newest unjoined match */
+	for (i = nthr - 1; i >= 1; i--)
+		if (!T[i].joined && pthread_equal(T[i].pt, pt))
 			return i;
 	return -1;
 }
@@ -741,6 +743,11 @@ static void lock_release(void *m)
 	if (k >= 0)
 		lk[k].owner = -1;
 }
+static void lock_obs(void *m, int acquired, int spin)
+{
+	if (simk_obs.lock_event)
+		simk_obs.lock_event(me, m, acquired, spin);
+}
 
 int simk_pthread_mutex_init(pthread_mutex_t *m, const pthread_mutexattr_t *a)
 {
@@ -756,12 +763,16 @@ int simk_pthread_mutex_destroy(pthread_mutex_t *m)
 }
 int simk_pthread_mutex_lock(pthread_mutex_t *m)
 {
+	int r;
 	lock_acquire(m);
-	return pthread_mutex_lock(m);
+	r = pthread_mutex_lock(m);
+	lock_obs(m, 1, 0);
+	return r;
 }
 int simk_pthread_mutex_unlock(pthread_mutex_t *m)
 {
 	int r;
+	lock_obs(m, 0, 0);
 	lock_release(m);
 	r = pthread_mutex_unlock(m);
 	simk_yield();
@@ -774,8 +785,11 @@ int simk_pthread_spin_init(pthread_spinlock_t *l, int sh)
 }
 int simk_pthread_spin_lock(pthread_spinlock_t *l)
 {
+	int r;
 	lock_acquire((void *)l);
-	return pthread_spin_lock(l);
+	r = pthread_spin_lock(l);
+	lock_obs((void *)l, 1, 1);
+	return r;
 }
 int simk_pthread_spin_trylock(pthread_spinlock_t *l)
 {
@@ -790,6 +804,7 @@ int simk_pthread_spin_trylock(pthread_spinlock_t *l)
 int simk_pthread_spin_unlock(pthread_spinlock_t *l)
 {
 	int r;
+	lock_obs((void *)l, 0, 1);
 	lock_release((void *)l);
 	r = pthread_spin_unlock(l);
 	simk_yield();
@@ -1579,6 +1594,8 @@ static void proc_die(struct sproc *p, int status)
 	p->exit_at = -1;
 	p->report_stop = p->report_cont = 0;
 	simk_log(60, p->pid, status);
+	if (simk_obs.child_event)
+		simk_obs.child_event(p->pid, (int)(p - P), 3, status);
 	raise_process_sig(SIGCHLD);
 }
 
@@ -1611,6 +1628,8 @@ static struct sproc *proc_new(const struct simk_child_script *s, int stranger)
 	}
 	simk_stats.forks++;
 	simk_log(61, p->pid, stranger);
+	if (simk_obs.child_event)
+		simk_obs.child_event(p->pid, (int)(p - P), 1, 0);
 	return p;
 }
 
@@ -1627,26 +1646,28 @@ static void proc_events(void)
 	int i;
 	for (i = 0; i < nproc; i++) {
 		struct sproc *p = &P[i];
+		int progress = 1;
 		if (p->state != 1 && p->state != 2)
 			continue;
-		while (p->stop_idx < p->nstops) {
+		while (progress) {
 			int k = p->stop_idx;
-			if (p->state == 1 && p->stop_at[k] >= 0 && p->stop_at[k] <= vnow) {
+			progress = 0;
+			if (p->state == 1 && k < p->nstops && p->stop_at[k] >= 0 && p->stop_at[k] <= vnow) {
 				p->state = 2;
 				p->stop_at[k] = -1;
 				p->report_stop = 1;
 				p->report_cont = 0;
 				simk_log(62, p->pid, 0);
 				raise_process_sig(SIGCHLD);
-			} else if (p->state == 2 && p->stop_at[k] < 0 && p->cont_at[k] <= vnow) {
+				progress = 1;
+			} else if (p->state == 2 && !p->manual_stop && k < p->nstops && p->stop_at[k] < 0 && p->cont_at[k] <= vnow) {
 				p->state = 1;
 				p->report_cont = 1;
 				p->report_stop = 0;
 				p->stop_idx++;
 				simk_log(63, p->pid, 0);
 				raise_process_sig(SIGCHLD);
-			} else {
-				break;
+				progress = 1;
 			}
 		}
 		if (p->state == 1 && p->exit_at >= 0 && p->exit_at <= vnow)
@@ -1661,16 +1682,14 @@ static int64_t proc_next_time(void)
 	for (i = 0; i < nproc; i++) {
 		struct sproc *p = &P[i];
 		int64_t t = -1;
+		int k = p->stop_idx;
 		if (p->state == 1) {
 			if (p->exit_at >= 0)
 				t = p->exit_at;
-			if (p->stop_idx < p->nstops && p->stop_at[p->stop_idx] >= 0 &&
-			    (t < 0 || p->stop_at[p->stop_idx] < t))
-				t = p->stop_at[p->stop_idx];
-		} else if (p->state == 2) {
-			if (p->stop_idx < p->nstops)
-				t = p->cont_at[p->stop_idx];
-			/* a stopped process does not run its exit */
+			if (k < p->nstops && p->stop_at[k] >= 0 && (t < 0 || p->stop_at[k] < t))
+				t = p->stop_at[k];
+		} else if (p->state == 2 && !p->manual_stop && k < p->nstops && p->stop_at[k] < 0) {
+			t = p->cont_at[k];
 		}
 		if (t >= 0 && (next < 0 || t < next))
 			next = t;
@@ -1899,12 +1918,15 @@ int simk_kill(pid_t pid, int sig)
 				p->state = 1;
 				p->report_cont = 1;
 				p->report_stop = 0;
-				if (p->stop_idx < p->nstops)
-					p->stop_idx++;
+				if (!p->manual_stop && p->stop_idx < p->nstops && p->stop_at[p->stop_idx] < 0)
+					p->stop_idx++;	/* continued early: the scripted continue is void */
+				p->manual_stop = 0;
 				raise_process_sig(SIGCHLD);
 			} else if (sig == SIGSTOP && p->state == 1) {
 				p->state = 2;
+				p->manual_stop = 1;
 				p->report_stop = 1;
+				p->report_cont = 0;
 				raise_process_sig(SIGCHLD);
 			}
 			if (fatal && sig != SIGKILL && p->state == 2)
